@@ -1,5 +1,205 @@
-//! C15 — not implemented yet.
+//! C15 — comparison masks, select and the mask algebra behave as lane-wise booleans.
+use vcore::*;
+
+/// One lane of a numeric vector type; words carry the float bit pattern / the two's complement
+/// pattern truncated to the lane width.
+pub trait Prim: Copy + PartialOrd + PartialEq + std::fmt::Debug + 'static {
+    const BITS: u32;
+    const FLOAT: bool;
+    const SIGNED: bool;
+    fn fw(w: u64) -> Self;
+    fn tb(self) -> u64;
+    /// NaN, zero or infinite (floats only)
+    fn special(self) -> bool;
+    fn cls(self) -> &'static str;
+}
+impl Prim for f32 {
+    const BITS: u32 = 32;
+    const FLOAT: bool = true;
+    const SIGNED: bool = true;
+    #[inline]
+    fn fw(w: u64) -> f32 {
+        f32::from_bits(w as u32)
+    }
+    #[inline]
+    fn tb(self) -> u64 {
+        self.to_bits() as u64
+    }
+    #[inline]
+    fn special(self) -> bool {
+        self.is_nan() || self == 0.0 || self.is_infinite()
+    }
+    fn cls(self) -> &'static str {
+        lattice::class_f32(self.to_bits())
+    }
+}
+impl Prim for f64 {
+    const BITS: u32 = 64;
+    const FLOAT: bool = true;
+    const SIGNED: bool = true;
+    #[inline]
+    fn fw(w: u64) -> f64 {
+        f64::from_bits(w)
+    }
+    #[inline]
+    fn tb(self) -> u64 {
+        self.to_bits()
+    }
+    #[inline]
+    fn special(self) -> bool {
+        self.is_nan() || self == 0.0 || self.is_infinite()
+    }
+    fn cls(self) -> &'static str {
+        lattice::class_f64(self.to_bits())
+    }
+}
+macro_rules! int_prim {
+    ($t:ty, $u:ty, $bits:expr, $signed:expr) => {
+        impl Prim for $t {
+            const BITS: u32 = $bits;
+            const FLOAT: bool = false;
+            const SIGNED: bool = $signed;
+            #[inline]
+            fn fw(w: u64) -> $t {
+                w as $u as $t
+            }
+            #[inline]
+            fn tb(self) -> u64 {
+                self as $u as u64
+            }
+            #[inline]
+            fn special(self) -> bool {
+                false
+            }
+            fn cls(self) -> &'static str {
+                if self == <$t>::MIN {
+                    "int:MIN"
+                } else if self == <$t>::MAX {
+                    "int:MAX"
+                } else if self == 0 {
+                    "int:zero"
+                } else if (self as $u) >> ($bits - 1) != 0 {
+                    "int:top-bit-set"
+                } else {
+                    "int:other"
+                }
+            }
+        }
+    };
+}
+int_prim!(i8, u8, 8, true);
+int_prim!(u8, u8, 8, false);
+int_prim!(i16, u16, 16, true);
+int_prim!(u16, u16, 16, false);
+int_prim!(i32, u32, 32, true);
+int_prim!(u32, u32, 32, false);
+int_prim!(i64, u64, 64, true);
+int_prim!(u64, u64, 64, false);
+int_prim!(usize, u64, 64, false);
+
+/// Everything that can be observed of a mask value through the public API.
+#[derive(Clone, PartialEq, Debug)]
+pub struct Obs {
+    pub bitmask: u32,
+    pub any: bool,
+    pub all: bool,
+    pub tests: Vec<bool>,
+    pub bools: Vec<bool>,
+    pub u32s: Vec<u32>,
+    pub dbg: String,
+    pub dbg_alt: String,
+    pub disp: String,
+    pub disp_w: String,
+}
+
+pub fn std_hash<T: std::hash::Hash>(t: &T) -> u64 {
+    use std::hash::Hasher;
+    let mut h = std::collections::hash_map::DefaultHasher::new();
+    t.hash(&mut h);
+    h.finish()
+}
+
+pub fn pick<T: Copy, const N: usize>(b: [bool; N], t: T, f: T) -> [T; N] {
+    let mut a = [f; N];
+    for i in 0..N {
+        if b[i] {
+            a[i] = t;
+        }
+    }
+    a
+}
+
+#[cfg(not(feature = "core"))]
+mod simd {
+    pub const VARIANT: &str = "simd";
+    use ::glam_simd as glam;
+    /// raw register lanes of the SIMD-backed masks (only used to tally what the generator reached)
+    pub fn raw3a(m: glam::BVec3A) -> Option<[u32; 4]> {
+        Some(unsafe { std::mem::transmute::<glam::BVec3A, [u32; 4]>(m) })
+    }
+    pub fn raw4a(m: glam::BVec4A) -> Option<[u32; 4]> {
+        Some(unsafe { std::mem::transmute::<glam::BVec4A, [u32; 4]>(m) })
+    }
+    /// Vec4's mask type in this build, and the comparison routes into BVec4A
+    #[allow(unused_imports)]
+    use self::mbvec4a as mvec4;
+    pub const A4_CMP_ROUTES: u64 = 7;
+    pub fn a4(m: glam::BVec4A) -> glam::BVec4A {
+        m
+    }
+    include!("suite.rs");
+}
+#[cfg(not(feature = "core"))]
+mod scalar {
+    pub const VARIANT: &str = "scalar";
+    use ::glam_scalar as glam;
+    pub fn raw3a(m: glam::BVec3A) -> Option<[u32; 4]> {
+        Some([m.x, m.y, m.z, 0])
+    }
+    pub fn raw4a(m: glam::BVec4A) -> Option<[u32; 4]> {
+        Some([m.x, m.y, m.z, m.w])
+    }
+    /// with scalar-math Vec4 compares into / selects by BVec4; BVec4A is only reachable through its constructors
+    #[allow(unused_imports)]
+    use self::mbvec4 as mvec4;
+    pub const A4_CMP_ROUTES: u64 = 0;
+    pub fn a4(_m: glam::BVec4) -> glam::BVec4A {
+        unreachable!()
+    }
+    include!("suite.rs");
+}
+#[cfg(feature = "core")]
+mod core_simd {
+    pub const VARIANT: &str = "core";
+    use ::glam_core as glam;
+    pub fn raw3a(m: glam::BVec3A) -> Option<[u32; 4]> {
+        Some(unsafe { std::mem::transmute::<glam::BVec3A, [u32; 4]>(m) })
+    }
+    pub fn raw4a(m: glam::BVec4A) -> Option<[u32; 4]> {
+        Some(unsafe { std::mem::transmute::<glam::BVec4A, [u32; 4]>(m) })
+    }
+    /// Vec4's mask type in this build, and the comparison routes into BVec4A
+    #[allow(unused_imports)]
+    use self::mbvec4a as mvec4;
+    pub const A4_CMP_ROUTES: u64 = 7;
+    pub fn a4(m: glam::BVec4A) -> glam::BVec4A {
+        m
+    }
+    include!("suite.rs");
+}
+
 fn main() {
-    eprintln!("c15: not implemented");
-    std::process::exit(2);
+    let args = Args::parse();
+    let mut subs = vec![];
+    #[cfg(not(feature = "core"))]
+    {
+        subs.extend(simd::subs(&args));
+        subs.extend(scalar::subs(&args));
+    }
+    #[cfg(feature = "core")]
+    {
+        subs.extend(core_simd::subs(&args));
+    }
+    let code = main_with("C15", "see MANIFEST / evidence rule", &args, subs);
+    std::process::exit(code);
 }
